@@ -32,6 +32,8 @@ func runTypeCheck(eng *Engine, name string) []*Obligation {
 	switch {
 	case strings.HasPrefix(name, "wiring:"):
 		return wiringObligations(eng, strings.TrimPrefix(name, "wiring:"))
+	case strings.HasPrefix(name, "guarded:"):
+		return guardedClosureObligations(eng, strings.TrimPrefix(name, "guarded:"))
 	case strings.HasPrefix(name, "callers:"):
 		return callerObligations(eng, strings.TrimPrefix(name, "callers:"))
 	case strings.HasPrefix(name, "templates:"):
@@ -435,3 +437,68 @@ func callerObligations(eng *Engine, spec string) []*Obligation {
 }
 
 func mangleShort(s string) string { return strings.ReplaceAll(s, modPrefix+"internal/", "") }
+
+// guardedClosureObligations: "closure=callee[@props]" — the function literal `closure` (ssa name, e.g. F$1) is only ever
+// handed to `callee` as an argument: it is never called directly, stored, or passed elsewhere. With callee =
+// the circuit breaker's Call this says every directory request the literal makes goes through the breaker.
+func guardedClosureObligations(eng *Engine, spec string) []*Obligation {
+	var props []string
+	if j := strings.Index(spec, "@"); j >= 0 {
+		props = strings.Split(spec[j+1:], ",")
+		spec = spec[:j]
+	}
+	j := strings.Index(spec, "=")
+	if j < 0 {
+		return []*Obligation{mkOb("guarded["+spec+"]", "guarded", "guarded:<closure>=<callee>", false, "malformed", props)}
+	}
+	clo, callee := spec[:j], spec[j+1:]
+	fn := eng.fnByShort(clo)
+	name := "guarded[" + clo + "]"
+	if fn == nil || fn.Parent() == nil {
+		return []*Obligation{mkOb(name, "guarded", "the function literal "+clo+" exists", false, "no such function literal", props)}
+	}
+	n, bad := 0, ""
+	for _, b := range fn.Parent().Blocks {
+		for _, in := range b.Instrs {
+			mc, ok := in.(*ssa.MakeClosure)
+			if !ok || mc.Fn != ssa.Value(fn) {
+				continue
+			}
+			n++
+			var walk func(v ssa.Value, depth int)
+			walk = func(v ssa.Value, depth int) {
+				if depth > 4 || v.Referrers() == nil {
+					return
+				}
+				for _, r := range *v.Referrers() {
+					switch u := r.(type) {
+					case *ssa.DebugRef:
+					case *ssa.ChangeType:
+						walk(u, depth+1)
+					case *ssa.Phi:
+						walk(u, depth+1)
+					case ssa.CallInstruction:
+						cc := u.Common()
+						if cc.Value == v {
+							bad = "called directly in " + shortFn(fn.Parent())
+							continue
+						}
+						cn := ""
+						if sc := cc.StaticCallee(); sc != nil {
+							cn = mangleShort(sc.String())
+						} else if cc.IsInvoke() {
+							cn = mangleShort(cc.Method.FullName())
+						}
+						if cn != callee {
+							bad = "passed to " + cn
+						}
+					default:
+						bad = fmt.Sprintf("used by %T", r)
+					}
+				}
+			}
+			walk(mc, 0)
+		}
+	}
+	return []*Obligation{mkOb(name, "guarded", "the function literal "+clo+" is only ever passed to "+callee, n > 0 && bad == "", bad+fmt.Sprintf(" (%d creation sites)", n), props)}
+}
